@@ -17,7 +17,7 @@ THOROUGH_N = 10000
 QUICK_BUDGET_S = 80
 THOROUGH_BUDGET_S = 900
 RULE = ("generated .sm texts: 1-4 charts of every keyed chart type (and unkeyed ones), 1-6 measures with "
-        "R in {4,8,12,16,24,32,48,64,96,192} rows (other R on an out-of-domain stream), symbols 1 2 3 4 M L F K "
+        "R in {4,8,12,16,24,32,48,64,96,192} and {20,28,36,40,44,52,60,100} rows (non-multiples of 4 on an out-of-domain stream), symbols 1 2 3 4 M L F K "
         "(well-bracketed per column on the main stream, arbitrary on a side stream), comment and blank lines, "
         "1-5 tempo changes on 1/16-beat decimals (other decimals out of domain), #OFFSET of both signs, "
         "shuffled string tags, malformed texts compared on the error class; non-trivial = at least one tempo change "
@@ -34,7 +34,8 @@ KEYED = {"dance-single": 4, "dance-double": 8, "dance-solo": 6, "dance-couple": 
          "dance-routine": 8, "kb7-single": 7}
 UNKEYED = {"pump-single": 5, "pump-double": 10, "bm-single7": 8, "pnm-nine": 9, "techno-single8": 8,
            "kickbox-human": 4, "ez2-real": 7, "maniax-double": 8}
-ROWS_OK = [4, 4, 4, 8, 8, 12, 16, 16, 24, 32, 48, 64, 96, 192]
+ROWS_OK = [4, 4, 4, 8, 8, 12, 16, 16, 24, 32, 48, 64, 96, 192,
+           20, 28, 36, 40, 44, 52, 60, 100]      # multiples of 4 whose rows-per-beat do not divide 96
 ROWS_BAD = [1, 2, 3, 5, 6, 7, 9, 10, 14]
 E_BPMS = ["120", "120.000", "60", "150.0", "75", "240", "100", "200.000", "125", "187.5", "93.75", "300", "480", "50"]
 STR_TAGS = ["TITLE", "SUBTITLE", "ARTIST", "TITLETRANSLIT", "SUBTITLETRANSLIT", "ARTISTTRANSLIT", "GENRE", "CREDIT",
@@ -147,7 +148,7 @@ def gen_chart(rng, stream, small):
         if stream == "badrows" and rng.random() < 0.6:
             n = rng.choice(ROWS_BAD)
         else:
-            n = rng.choice(ROWS_OK if not small else [4, 8, 12, 16])
+            n = rng.choice(ROWS_OK if not small else [4, 8, 12, 16, 20, 28, 44])
         rows = gen_rows(rng, keys, n, state, bracketed, last=(m == nm - 1))
         measures.append(decorate(rng, rows, rng.choice([0, 0, 0.05, 0.2])))
     return dict(type=typ, desc=rng.choice(WORDS), diff=rng.choice(DIFFS), meter=str(rng.choice([1, 5, 12, 0, 99])),
